@@ -132,6 +132,7 @@ def r2_threshold(ctx):
         guard = [a for a in atoms if set(a[2].terms) == {"T"} and abs(a[2].const) == (1 << 128) - 1]
         r.check(bool(guard), "threshold/saturated-guard", "the vote sums saturate and a saturated total is refused", "the vote sums saturate, but confirm does not refuse a saturated total: "
                 "with more than 2^128 staked, present and total are both clipped and a minority can reach the threshold")
+    _only_three_causes(ctx, r, body, somes, atoms)
     for e, op, d, bi in atoms:
         where = body.where(bi)
         extra = [k for k in d.terms if k not in ("P", "T")]
@@ -180,7 +181,66 @@ def r2_threshold(ctx):
             if fl_on_P or not strict:
                 r.violation("threshold/rounding", "truncating division on the %s side of the comparison loses cases (%s)" % ("present" if fl_on_P else "total", sorted(d.flags)), where)
                 continue
+        # exactness: a product of a vote total computed in a machine integer clips (saturating), wraps or aborts once total ≥ 2^127: then `2·total` is no longer 2·total
+        clipped = []
+        for x in mir.walk(e):
+            if not isinstance(x, tuple):
+                continue
+            ops_ = None
+            if x[0] == "call" and x[1].startswith("core::num::<impl ") and x[1].split("::")[-1] in ("saturating_mul", "wrapping_mul", "overflowing_mul", "saturating_add", "wrapping_add", "unchecked_mul", "saturating_pow", "wrapping_pow"):
+                ops_, how = x[2], x[1].split("::")[-1]
+            elif x[0] == "bin" and x[1] in ("Mul", "MulWithOverflow", "Shl"):
+                ops_, how = (x[2], x[3]), "`%s` on a machine integer" % {"Mul": "*", "MulWithOverflow": "*", "Shl": "<<"}[x[1]]
+            if ops_ and any(q.contains(o, lambda y: isinstance(y, tuple) and key(y) is not None) for o in ops_ if isinstance(o, tuple)):
+                clipped.append(how)
+        if clipped:
+            r.violation("threshold/clipped", "the threshold comparison multiplies a vote total with %s: once the active voting power reaches 2^127 the product is clipped or wraps "
+                        "(or the call aborts), and then a proof signed by every staker does not confirm, or a minority one does" % sorted(set(clipped))[0], where)
+            continue
         r.ok("threshold", "confirms when %s" % form, where)
+
+
+def _only_three_causes(ctx, r, body, somes, atoms):
+    """'adding a valid signature never turns a confirming proof into a non-confirming one', 'a proof signed by all stakers always confirms': confirm may answer None for
+    three reasons only — a signature does not verify, the vote totals are saturated, the threshold is not met.  With every verification forced true, the total forced
+    unsaturated and every threshold comparison forced to its confirming outcome, a None that is still reachable has another cause; it is reported when that cause is a
+    `?` on a computation that contains no signature verification (a tally that fails for a signer without voting power, say)."""
+    prog = ctx.prog
+    tbl = {}
+    for bi, t in q.calls_to(body, "Ed25519PK::verify"):
+        tbl[body.rec_call(t, bi)] = 1
+    for e, op, d, bi in atoms:
+        if set(d.terms) == {"T"} and abs(d.const) == (1 << 128) - 1 and op in ("Eq", "Ne"):
+            tbl[e] = 0 if op == "Eq" else 1
+            continue
+        f1 = Forcing(body, lambda x, e=e: 1 if x == e else None)
+        f0 = Forcing(body, lambda x, e=e: 0 if x == e else None)
+        t1, t0 = any(s_ in f1.reach for s_ in somes), any(s_ in f0.reach for s_ in somes)
+        if t1 != t0:
+            tbl[e] = 1 if t1 else 0
+
+    def has_verify(x):
+        for y in mir.walk(x):
+            if isinstance(y, tuple) and y and y[0] == "closure":
+                cb = prog.body(y[1])
+                if cb is not None and any(q.calls_to(c_, "Ed25519PK::verify") for c_ in [cb] + prog.closures_of(cb)):
+                    return True
+            if isinstance(y, tuple) and y and y[0] == "call" and y[1].endswith("Ed25519PK::verify"):
+                return True
+        return False
+    f = Forcing(body, lambda x: tbl.get(x))
+    res = q.result_blocks(body)
+    other = []
+    for bb, e in res["None"]:
+        if bb not in f.reach or not q.is_call(e, "from_residual"):
+            continue
+        if not has_verify(e):
+            other.append((bb, e))
+    if other:
+        r.violation("none/other-cause", "confirm can answer None although every signature verifies, the total is not saturated and the threshold is met: `?` on %s — "
+                    "a valid extra signature (e.g. of a key without voting power) can void a confirming proof" % sig(q.novers(other[0][1]))[:200], body.where(other[0][0]))
+    else:
+        r.ok("none/other-cause", "None only for a bad signature, a saturated total or a missed threshold (as far as `?` sites go)")
 
 
 def _floor_on(cm, key, name):
